@@ -86,8 +86,10 @@ class Runtime:
         self.api = []  # (call name, "ok" | "raised:<desc>")
         self.vars, self.ids = {}, {}
         self.probes = []
+        self.probe_types = []
         self.cur_exc = []
         self.notes = []
+        self.caller_dicts = []
         self.writes = []  # every Logger.write call: (canonical dict before the call, has serializer)
         self.uuids = set()
         self.checks = []  # model-free property checks that failed: (property tag, what)
@@ -138,6 +140,18 @@ class Runtime:
             return dict(fields)
 
         return extract
+
+    def field(self, key, sid):
+        import eliot
+
+        if key == "missing":
+            # a declared plain typed field (identity serializer) the program never supplies
+            return eliot.Field.forTypes(key, [int], "")
+        return eliot.Field(key, self.serializer(sid), "")
+
+    def final_snapshot_check(self):
+        for d, snap, snapshot in self.caller_dicts:
+            self.check("caller-dict", snapshot(d) == snap, "a dictionary passed to Logger.write was modified after the call returned")
 
     def serializer(self, sid):
         def ser(v):
@@ -279,7 +293,10 @@ def run_case(case):
                 return None
 
         snap = snapshot(dictionary)
-        rt.writes.append((rt.canon_msg(dictionary), serializer is not None))
+        if snap is not None:
+            rt.caller_dicts.append((dictionary, snap, snapshot))
+        declared = sorted(k for k in getattr(serializer, "fields", {})) if serializer is not None else None
+        rt.writes.append((rt.canon_msg(dictionary), serializer is not None, declared))
         try:
             return orig_write(self, dictionary, serializer)
         finally:
@@ -301,7 +318,9 @@ def run_case(case):
             result["outcome"] = "stuck"
         except BaseException as e:  # noqa: the program's own exception leaving the top level
             result["outcome"] = {"raised": rt.exc_tag(e)}
-        result["ctx"] = ctx_tag(_action.current_action())
+        a = _action.current_action()
+        result["ctx"] = ctx_tag(a)
+        result["ctxType"] = None if a is None else a._identification.get("action_type")
 
     try:
         contextvars.Context().run(body)
@@ -312,7 +331,7 @@ def run_case(case):
         _action.time, _action.uuid4 = saved_time, saved_uuid
         _output.Logger.write = orig_write
     buf = 0
-    result.update(offered=rt.offered, accepted=rt.accepted, probes=rt.probes)
+    result.update(offered=rt.offered, accepted=rt.accepted, probes=rt.probes, probeTypes=rt.probe_types)
     return result, rt
 
 
@@ -392,8 +411,8 @@ def _make_action2(rt, task, spec):
     if spec.get("sers") is not None:
         at = eliot.ActionType(
             spec["atype"],
-            [eliot.Field(k, rt.serializer(sid), "") for k, sid in spec["sers"]["start"]],
-            [eliot.Field(k, rt.serializer(sid), "") for k, sid in spec["sers"]["success"]],
+            [rt.field(k, sid) for k, sid in spec["sers"]["start"]],
+            [rt.field(k, sid) for k, sid in spec["sers"]["success"]],
         )
         return api(rt, "ActionType.as_task" if task else "ActionType()", at.as_task if task else at, **kw)
     f = eliot.start_task if task else eliot.start_action
@@ -417,7 +436,7 @@ def _log_with(rt, target, ms):
 
     kw = rt.kwargs(ms["fields"])
     if ms.get("sers") is not None:
-        mt = eliot.MessageType(ms["mtype"], [eliot.Field(k, rt.serializer(sid), "") for k, sid in ms["sers"]])
+        mt = eliot.MessageType(ms["mtype"], [rt.field(k, sid) for k, sid in ms["sers"]])
         if target is None:
             return api(rt, "MessageType.log", mt.log, **kw)
         kw["__eliot_serializer__"] = mt._serializer
@@ -550,6 +569,8 @@ def exec_stmt(rt, s):
     elif op == "addGlobals":
         api(rt, "add_global_fields", eliot.add_global_fields, **rt.kwargs(s["fs"]))
     elif op == "probe":
-        rt.probes.append([s["n"], ctx_tag(_action.current_action())])
+        a = _action.current_action()
+        rt.probes.append([s["n"], ctx_tag(a)])
+        rt.probe_types.append([s["n"], None if a is None else a._identification.get("action_type")])
     else:
         raise ValueError(op)
